@@ -363,3 +363,15 @@ Theorem wentry_cmp_ok : cmp_ok wentry_cmp.
 Proof. apply lex_cmp_ok, wrel_cmp_ok. Qed.
 
 (* the comparison of the shipped code is not transitive on "equal": see props/C13.v *)
+
+Theorem psort_contract : forall (A : Type) (cmp : A -> A -> comparison), cmp_ok cmp ->
+  forall l,
+  Permutation l (psort cmp l) /\ Sorted (cmp_le cmp) (psort cmp l) /\
+  (forall a, filter (eqv cmp a) (psort cmp l) = filter (eqv cmp a) l) /\
+  (forall l', Sorted (cmp_le cmp) l' -> (forall a, filter (eqv cmp a) l' = filter (eqv cmp a) l) -> l' = psort cmp l) /\
+  (Sorted (cmp_le cmp) l -> psort cmp l = l).
+Proof.
+  intros A cmp (Ha & He & Ht) l. split; [apply psort_perm|]. split; [apply psort_sorted, Ha|].
+  split; [intros a; apply psort_stable; assumption|]. split; [intros l'; apply stable_sort_unique; assumption|].
+  apply psort_id, Ha.
+Qed.
